@@ -473,3 +473,19 @@ Proof.
   - eapply inb_eq; [symmetry; exact Hu|exact P1].
   - eapply between_eq; [reflexivity|reflexivity|symmetry; exact Hu|exact P2].
 Qed.
+
+(* non-vacuity: a good two-entry vector whose first entry crosses its upper bound; the three methods *)
+Example kernels_witness :
+  let ps := [(mkent 5 4 (Some 0) (Some 3), 1); (mkent (-1) (-2) None (Some 3), 1)] in
+  Forall (good 1) ps /\
+  map e_u (enforce Scalar 1 (map fst ps)) = [3; -1] /\
+  map e_u (enforce Wall 1 (map fst ps)) = [3; -1] /\
+  map e_du (enforce Wall 1 (map fst ps)) = [0; -2] /\
+  (exists a b, map e_u (enforce Vector 1 (map fst ps)) = [a; b] /\ a == 3 /\ b == 0) /\
+  vec_dalpha (map fst ps) == 1#2.
+Proof.
+  cbn zeta. split.
+  - repeat constructor; cbn; lra.
+  - repeat split; try (vm_compute; reflexivity).
+    eexists; eexists. split; [vm_compute; reflexivity|]. split; vm_compute; reflexivity.
+Qed.
